@@ -24,7 +24,8 @@ ASSUMPTIONS = [
 ]
 ESSENTIAL_LABELS = {'all': ['empty_array', 'all_h_gt_1', 'dt_adapt',
                             'no_criterion', 'ghosts', 'fixed_h',
-                            'missing_props', 'solver_path']}
+                            'missing_props', 'solver_path',
+                            'solver_damped']}
 
 CRIT = ('dt_cfl', 'dt_force', 'dt_visc')
 
@@ -67,7 +68,9 @@ def case_strategy(draw):
                 fixed_h=draw(st.booleans()),
                 nrounds=draw(st.integers(1, 3)),
                 dt=10.0 ** draw(st.floats(-4, 1)),
-                via_solver=draw(st.booleans()))
+                via_solver=draw(st.booleans()),
+                n_damp=draw(st.sampled_from([0, 0, 3, 8])),
+                warm=draw(st.integers(0, 6)))
 
 
 class AEval(object):
@@ -185,17 +188,27 @@ def check(case):
     integ.set_fixed_h(case['fixed_h'])
     solver = None
     if case['via_solver']:
-        solver = Solver(integrator=integ, dt=case['dt'], tf=1.0,
-                        adaptive_timestep=True, cfl=case['cfl'])
+        solver = Solver(integrator=integ, dt=case['dt'], tf=1e9,
+                        adaptive_timestep=True, cfl=case['cfl'],
+                        n_damp=case.get('n_damp', 0))
         solver.particles = pas
         labels.append('solver_path')
+        if case.get('n_damp', 0):
+            labels.append('solver_damped')
     nontrivial = False
+    nominal = [case['dt']]
     for r in range(case['nrounds']):
         if r > 0:
             setvals(r)
         exp, how = expected(case, r)
         try:
             got = integ.compute_time_step(case['dt'], case['cfl'])
+            if solver is not None and r == 0:
+                # the solver's own loop: damped steps for a few iterations;
+                # the proposal (undamped) must stay the documented value
+                for _ in range(case.get('warm', 0)):
+                    solver.dt = solver._get_timestep()
+                    solver.count += 1
             sgot = solver._compute_timestep() if solver is not None else None
         except Exception as ex:
             fails.append(Failure('compute_time_step', 'exception', repr(ex),
@@ -230,7 +243,16 @@ def check(case):
                 observed=repr(got)))
             break
         if solver is not None:
-            sexp = [case['dt'] if e is None else e for e in exp]
+            if r == 0:
+                # the solver's nominal step after the warm-up iterations is
+                # the last proposal (the fixed step when none applied)
+                if case.get('warm', 0) and exp[0] is not None:
+                    nominal = list(exp)
+                else:
+                    nominal = [case['dt']]
+            sexp = []
+            for e in exp:
+                sexp += nominal if e is None else [e]
             if not any(sgot is not None and math.isfinite(sgot) and
                        abs(sgot - e) <= 1e-12 * abs(e) for e in sexp):
                 fails.append(Failure(
